@@ -89,6 +89,10 @@ HARNESSES = [
     H("k_deflate_protocol", "K-deflate", ["C02", "C12", "C14"], fns=["deflate", "TDEFLFlush::from(MZFlush)"], cost=40,
       strength="B(in<=3,out<=3 bytes, loop unwinding assertion on; complete in wrapper state, flush, engine results)",
       note="compress replaced by contract model M-compress (proved by K-dispatch: counts<=offered, Done only after Finish, status latched; assumed: progress - Okay with output space and work left moved at least one byte)"),
+    # ---- K-reset ----
+    H("k_inflate_reset_policies", "K-reset", ["C18"], fns=["MinReset::reset", "ZeroReset::reset", "FullReset::reset", "InflateState::reset", "InflateState::reset_as", "DecompressorOxide::init"], cost=40),
+    H("k_compressor_reset", "K-reset", ["C18", "C02", "C14", "C16"], fns=["CompressorOxide::reset", "ParamsOxide::reset", "DictOxide::reset", "HashBuffers::reset", "LZOxide::new", "HuffmanOxide::default"], cost=60,
+      note="<[T]>::fill replaced by its std contract model (writes index 0; call count and slice lengths recorded): the window/next/hash fills are observed at index 0 plus (3 calls, total length) and extended to every element by the std contract"),
     # ---- K-lenDist ----
     H("k_lz_one_match_roundtrip", "K-lenDist", ["C01", "C02", "C10"], cost=40,
       fns=["record_match", "compress_lz_codes", "LZOxide::new", "LZOxide::write_code", "LZOxide::init_flag", "LZOxide::get_flag",
